@@ -37,13 +37,24 @@ class Child:
                                    os.environ['VERIF_STAGE_DIR']], stdin=subprocess.PIPE, stdout=subprocess.PIPE,
                                   env=env, text=True, bufsize=1, cwd=ROOT)
 
-    def call(self, fn, args, kwargs=None, containers=None):
+    def call(self, fn, args, kwargs=None, containers=None, **extra):
         req = {'fn': fn, 'args': args, 'kwargs': kwargs or {}, 'containers': containers or {}}
-        self.p.stdin.write(json.dumps(req) + '\n')
-        self.p.stdin.flush()
-        line = self.p.stdout.readline()
+        req.update(extra)
+        try:
+            self.p.stdin.write(json.dumps(req) + '\n')
+            self.p.stdin.flush()
+            line = self.p.stdout.readline()
+        except (BrokenPipeError, OSError):
+            line = ''
         if not line:
-            raise RuntimeError('child process died (exit %s)' % self.p.poll())
+            # the interpreter died while executing this library call (segfault / abort): that is an outcome of the
+            # call, not a harness error; the next call gets a fresh child
+            try:
+                code = self.p.wait(10)
+            except Exception:
+                self.p.kill()
+                code = 'killed'
+            return {'exc': 'crash:child-exit-%s' % code}
         return _dec(json.loads(line))
 
     def close(self):
